@@ -1048,14 +1048,9 @@ func coqAuth(a Auth) string {
 	if a.None {
 		return "None"
 	}
-	sa := "Creds.SAEmpty"
-	switch a.SAKind {
-	case "url":
-		sa = "(Creds.SAUrl " + coqStr(a.SAHost) + ")"
-	case "bare":
-		sa = "Creds.SABare"
-	case "bad":
-		sa = "Creds.SABad"
+	sa := "Creds.SAEmpty" // the model parses the address text itself
+	if a.SAKind != "empty" {
+		sa = "(Creds.SAText " + coqStr(a.SAText) + ")"
 	}
 	b := "(Creds.B64 [])"
 	if a.B64Bad {
